@@ -200,15 +200,19 @@ func (c *Cache[k, v]) pruneAge() {
 	for key := range c.entries {
 		if c.entries[key].used.Before(cutoff) {
 			if c.pruneFn != nil {
-				if c.prunePreFn != nil {
-					c.prunePreFn(key, c.entries[key].value)
+				e, ok := c.pruneLock(key)
+				if !ok || !e.used.Before(cutoff) {
+					// entry was removed or used while waiting for the pre function
+					c.pruneUnlock(key, e)
+					if ok && e.used.Before(oldest) {
+						oldest = e.used
+					}
+					continue
 				}
-				err := c.pruneFn(key, c.entries[key].value)
-				if c.prunePostFn != nil {
-					c.prunePostFn(key, c.entries[key].value)
-				}
+				err := c.pruneFn(key, e.value)
+				c.pruneUnlock(key, e)
 				if err != nil {
-					c.entries[key].used = now
+					e.used = now
 					continue
 				}
 			}
@@ -259,15 +263,16 @@ func (c *Cache[k, v]) pruneCount() {
 	delCount := 0
 	for _, key := range keyList {
 		if c.pruneFn != nil {
-			if c.prunePreFn != nil {
-				c.prunePreFn(key, c.entries[key].value)
+			e, ok := c.pruneLock(key)
+			if !ok {
+				// entry was removed while waiting for the pre function
+				c.pruneUnlock(key, e)
+				continue
 			}
-			err := c.pruneFn(key, c.entries[key].value)
-			if c.prunePostFn != nil {
-				c.prunePostFn(key, c.entries[key].value)
-			}
+			err := c.pruneFn(key, e.value)
+			c.pruneUnlock(key, e)
 			if err != nil {
-				c.entries[key].used = time.Now()
+				e.used = time.Now()
 				continue
 			}
 		}
@@ -276,6 +281,30 @@ func (c *Cache[k, v]) pruneCount() {
 		if delCount >= delLen {
 			break
 		}
+	}
+}
+
+// pruneLock runs the pre function for an entry.
+// The pre function typically locks the value, and users holding that lock call into the cache.
+// To keep a consistent lock order, the cache lock is released while the pre function runs.
+// The return is false if the entry was removed or replaced in the meantime.
+func (c *Cache[k, v]) pruneLock(key k) (*Entry[v], bool) {
+	e := c.entries[key]
+	if e == nil {
+		return nil, false
+	}
+	if c.prunePreFn != nil {
+		c.mu.Unlock()
+		c.prunePreFn(key, e.value)
+		c.mu.Lock()
+	}
+	return e, c.entries[key] == e
+}
+
+// pruneUnlock runs the post function for an entry returned by pruneLock.
+func (c *Cache[k, v]) pruneUnlock(key k, e *Entry[v]) {
+	if e != nil && c.prunePostFn != nil {
+		c.prunePostFn(key, e.value)
 	}
 }
 
